@@ -223,6 +223,10 @@ class Vals:
                 tr = (c.get("trait") or "").split("::")[-1]
                 if (tr, c.get("name")) in IDENTITY_SHORT and t["args"]:
                     return self.root(t["args"][0], depth + 1)
+                # views of a container are the container: Vec::as_slice / as_mut_slice, <[T]>::as_ref …
+                if not c.get("trait") and c.get("name") in ("as_slice", "as_mut_slice") and t["args"] \
+                        and str(c.get("path") or "").startswith(("alloc::vec::Vec", "smallvec::SmallVec", "core::slice", "core::array")):
+                    return self.root(t["args"][0], depth + 1)
             return Root(("call", d[1]))
 
     def describe(self, root):
